@@ -994,6 +994,8 @@ class GDict:
     _symarray = True
     __hash__ = None
 
+    default, has_default = None, False
+
     def __init__(self, base=None):
         self.slots = {}
         for k, v in (base or {}).items():
@@ -1001,12 +1003,14 @@ class GDict:
 
     def _copy(self):
         d = GDict()
+        d.default, d.has_default = self.default, self.has_default
         for k, (p, v) in self.slots.items():
             d.slots[k] = [p, v._copy() if hasattr(v, "_copy") else (list(v) if type(v) is list else v)]
         return d
 
     def _merge(self, c, other):
         d = GDict()
+        d.default, d.has_default = self.default, self.has_default
         for k in list(self.slots) + [k for k in other.slots if k not in self.slots]:
             pa, va = self.slots.get(k, [False, None])
             pb, vb = other.slots.get(k, [False, None])
@@ -1076,6 +1080,8 @@ class GDict:
         return self.lookup(key, default, True)
 
     def __getitem__(self, key):
+        if self.has_default:
+            return self.lookup(key, self.default, True)      # Counter / defaultdict: missing key -> default
         return self.lookup(key)
 
     def __setitem__(self, key, value):
